@@ -3,20 +3,28 @@ import re
 
 
 def classify(case):
+    """A monitor-failing case is keyed ONLY when every other clause of the monitor holds on it and the failing
+    Includes clause has exactly the recorded shape. Anything else (limit clause, in-window clauses, round trip, or an
+    Includes failure of another shape, or two different clauses at once) returns None -> VIOLATION."""
     i = case.get("input") or {}
     o = case.get("observed") or {}
-    if i.get("kind") != "next" or "includes_start" not in o:
+    if i.get("kind") != "next" or "includes_start" not in o or "start_unix" not in o:
         return None
-    sched = o.get("sched", "")
+    ws, we, last, now = o["start_unix"], o["end_unix"], i.get("last", 0), i.get("now", 0)
+    # the in-window clauses of Timer.monitor_fail (CNext), re-evaluated here: all must hold
+    if we < now or (ws <= last <= we) or we < ws or ws < (last // 86400) * 86400:
+        return None
     if not o["includes_start"]:
-        # a clock span whose START is 24:00 (finding 4)
-        if re.search(r"(^|,)24:00", sched):
+        # Includes(window.Start) is false: keyed only for a window produced by a clock span whose START is 24:00
+        # (its last minute lies on the same wrong day, so that flag may be false too: same cause)
+        if o.get("from_span_starting_2400") and ws % 86400 == 0:
             return "start-clock-24:00"
         return None
     if not o.get("includes_last_minute", True):
-        # the window crosses midnight: its last minute lies on the day after its start
-        if o.get("start", "")[:10] != o.get("end", "")[:10]:
+        # start accepted, last minute rejected: keyed only when that minute lies on a later calendar day than the start
+        if o.get("last_minute_on_later_day") and not o.get("from_span_starting_2400"):
             return "window-crossing-midnight-tail"
+        return None
     return None
 
 
@@ -28,6 +36,10 @@ SPEC = dict(
              n=dict(quick=900, thorough=30000), timeout=dict(quick=300, thorough=1800),
              ev=dict(requires=["V.models.Timer"], case_type="Timer.case", prelude="Open Scope Z_scope.",
                      mismatch="Timer.mismatch", monitor="Timer.monitor_fail")),
+        dict(name="text", kind="test", pkg="./timeutil", run="TestVerifC16Text",
+             n=dict(quick=700, thorough=30000), timeout=dict(quick=300, thorough=1800),
+             ev=dict(requires=["V.lib.Bytes", "V.models.Timer", "V.models.TimerText"], case_type="TimerText.tcase",
+                     mismatch="TimerText.tmismatch", monitor="TimerText.tmonitor_fail")),
     ],
     classify=classify,
     rule=("timers generated from the documented grammar (1-2 event sets; weekday, numbered weekday, spans incl. wrapping and "
@@ -37,18 +49,24 @@ SPEC = dict(
           "Includes(window.End - 1min); top: timeutil.Next(schedules, last, maxd) with maxd = 95 days or < 3 days, a fifth of them "
           "around the limit; inc: Includes at a random instant; parse: ParseSchedule on grammar timers and on a malformed "
           "stream (random text; valid timers with one character changed/inserted/removed) with the String -> ParseSchedule "
-          "round trip. Non-trivial = accepted timer."),
+          "round trip. text: ParseSchedule and String on an edge list (empty fragments, `,,` runs, 24:00/24:01/25:00, /0, /2^32, mon0..mon6, "
+          "numbered ends, stray separators, upper case, blanks), grammar timers, random text over the timer alphabet and valid timers with 1-2 "
+          "characters changed/inserted/removed; the model parser's verdict and AST and the model formatter's bytes are compared with the real ones. "
+          "top cases include boundary placement: last+maxd at the first offered window's start-1s/start/start+1s/start-59..61min/middle/end-1s/end/end+1s. "
+          "Non-trivial = accepted timer."),
     exhaustive=dict(quick=False, thorough=False),
     trusted_base=[
         "hand-written model coq/models/Timer.v of timeutil/schedule.go and coq/lib/Civil.v (proleptic Gregorian calendar), tied by the differential run "
         "(harness/overlay/timeutil/zz_verif_c16_test.go); window, Includes and delay results are compared exactly",
+        "hand-written model coq/models/TimerText.v of ParseSchedule (incl. the validTime regexp as a hand-written matcher) and Schedule.String, tied by the `text` driver; "
+        "decimal printing/parsing through coq/lib/Dec.v (N.to_uint / N.of_uint)",
         "UTC only: time zones and DST are not modelled (Go's time package is trusted for UTC date arithmetic)",
         "randutil.RandomDuration is not modelled: for spread windows the delay is checked to lie in [start-now, start-now+bound)",
     ],
     assumptions=["PARTIAL: (a) termination of Schedule.Next's day search is not proved; C16_in_window_partial is conditional on the search succeeding within the fuel "
-                 "(400 days in the differential run; a case that needed more would be reported as a mismatch); (b) ParseSchedule/String are not modelled in Coq: "
-                 "rejection of malformed timers, well-formedness of accepted ones and the format->parse round trip are MONITORED on the implementation, not proved; "
-                 "(c) the call site in overlord/snapstate/autorefresh.go (timeutil.Next(refreshSchedule, lastRefresh, maxPostponement), maxPostponement = 95 days) is read, not extracted.",
+                 "(400 days in the differential run; a case that needed more would be reported as a mismatch); "
+                 "(b) the call site in overlord/snapstate/autorefresh.go (timeutil.Next(refreshSchedule, lastRefresh, maxPostponement), maxPostponement = 95 days) is read, not extracted.",
                  "C16_limit is proved for any list of windows, i.e. for any schedule functions",
+                 "the format->parse round trip holds up to norm_sched (Spread/Split of spans with end = start are not printed); theorem and driver use the same normalisation",
                  "all times UTC, whole seconds"],
 )
